@@ -1156,6 +1156,9 @@ func genC06JKS(c *Ctx) {
 }
 
 func genC06(c *Ctx) {
+	// rng.go's state after n draws is (seed+n)*GAMMA+const: nearby seeds give shifted copies of one
+	// stream.  Re-seed from the first (fully mixed) output so that seeds 1, 2, 3 ... are unrelated.
+	c.R = NewRng(c.R.U64())
 	genC06SSH(c)
 	genC06PEM(c)
 	genC06JKS(c)
